@@ -154,7 +154,7 @@ func init() {
 		level: "model_checking",
 		procs: panicnilProcs,
 		rule: "every symbol string of the tier's alphabets/bounds and every character string ≤ 5 (quick) / 6 (thorough) over {a ' \" \\ $ { } ( ) ` # < newline blank}, each parsed from a string, a []byte, a one-byte-at-a-time io.Reader, a bufio.Reader and a custom io.RuneScanner, " +
-			"by ParseCommands and ParseCommand; the shorter strings additionally under 7 alias tables (self reference, 2- and 3-cycles, trailing blanks, operators, reserved words, newline, unterminated quote); every alias value of ≤ 3 (thorough 4) characters over {a blank newline ; ' # $ ( ` \\ | x} in 3 tables × 7 sources; everything under GODEBUG=panicnil=0 and =1; " +
+			"by ParseCommands and ParseCommand; the shorter strings additionally under 7 alias tables (self reference, 2- and 3-cycles, trailing blanks, operators, reserved words, newline, unterminated quote); every alias value of ≤ 3 (thorough 4) characters over {a blank newline ; ' # $ ( ` \\ | x \" < ) { }} in 3 tables × 7 sources; everything under GODEBUG=panicnil=0 and =1; " +
 			"non-trivial = the source is not accepted (error paths are where the lexer bails out)",
 		assume: []string{"each case runs in a GOMAXPROCS=1 worker process; after the call the worker yields until the goroutines started by it are gone, so an asynchronous crash is attributed to its case",
 			"a blocked call shows as the Go runtime's deadlock abort or as the parent's no-progress watchdog; the schedule dimension of 'never blocks' is C06's"},
@@ -204,7 +204,7 @@ func init() {
 			if w.thorough() {
 				nv = 4
 			}
-			genRunes([]rune("a \n;'#$(`\\|x"), nv, func(rs []rune) {
+			genRunes([]rune("a \n;'#$(`\\|x\"<){}"), nv, func(rs []rune) {
 				if len(rs) == 0 || !w.Mine() || w.TimeUp() {
 					return
 				}
